@@ -259,6 +259,11 @@ Spec == Init /\ [][Next]_vars
 (* the statement as the monitor's verdict on every behaviour *)
 Conforms == bad = ""
 
+(* the exhaustive configuration runs both variants of the shut-down at once: the intended one conforms;
+   the pinned one fails only in that an unregistered Worker leaves its pool running *)
+ConformsIntended == variant = "intended" => bad = ""
+PinnedFailsOnlyUnreg == (variant = "pinned" /\ bad # "") => (bad = "X03.pool_not_shut_down" /\ st.ureq)
+
 (* and directly on the state *)
 TypeOK == /\ st.fired \in 0..NT /\ bad \in STRING
           /\ \A t \in TS : st.pl[t] \in {"none", "queued", "execd", "ready", "dropped"}
